@@ -201,6 +201,35 @@ func level2(tier string, shard, nsh int, res *ev.Result) {
 			jobs = append(jobs, job{scenarioFor(s, short, []int{s.ends[0] + 5}, "racing"), 1})
 		}
 	}
+	// (h) two connections: A's request arrives in two fragments and B's whole exchange happens in between (what the server
+	// keeps for A between the fragments must be A's own: reassembly state is per connection)
+	for _, f := range cat {
+		st := mkStream([]serverx.Frame{f})
+		L := len(st.bytes)
+		if L > 40 {
+			continue
+		}
+		for _, c1 := range []int{1, 7, 8, L - 1} {
+			if c1 < 1 || c1 >= L {
+				continue
+			}
+			ref, _ := reference(st)
+			var exp []string
+			for _, r := range ref {
+				if len(r) > 0 {
+					exp = append(exp, hex.EncodeToString(r))
+				}
+			}
+			if exp == nil {
+				exp = []string{}
+			}
+			a := []string{"dial", "write:" + hex.EncodeToString(st.bytes[:c1]), "sleep:20", "write:" + hex.EncodeToString(st.bytes[c1:]), fmt.Sprintf("recvall:%d", len(exp)), "close"}
+			b := []string{"sleep:10", "dial", "send", "recv", "close"}
+			sc := srvx.Scenario{Name: fmt.Sprintf("L2/two-connections/[%s]/cuts[%d]", f.Name, c1), Handler: "instant", Control: "none",
+				Clients: [][]string{a, b}, Expect: [][]string{exp}}
+			jobs = append(jobs, job{sc, 1})
+		}
+	}
 	var execs, steps, newSteps int64
 	outcomes := map[string]struct{}{}
 	for i, j := range jobs {
